@@ -135,7 +135,10 @@ class Real(Type):
         elif data == 0.0:
             data = '0'
         else:
-            data = '{}E0'.format(data)
+            # repr() may use an exponent itself ('1e+300', '5e-324'),
+            # which is moved to the GSER exponent.
+            mantissa, _, exponent = '{}'.format(data).partition('e')
+            data = '{}E{}'.format(mantissa, int(exponent) if exponent else 0)
 
         return data
 
